@@ -54,7 +54,7 @@ def aligned? (j : Json) : Option Aligned := do
 /-- `"asis": ["F13", …]` = defects to model as the code was; default: all repaired -/
 def fixes (j : Json) : Fixes :=
   let l := match getList? j "asis" with | some l => l.filterMap asStr? | none => []
-  ⟨!l.contains "F12", !l.contains "F13", !l.contains "F14", !l.contains "F15"⟩
+  ⟨!l.contains "F12", !l.contains "F13", !l.contains "F14", !l.contains "F15", !l.contains "F16"⟩
 
 def handle (op : String) (j : Json) : Option Json :=
   let fx := fixes j
